@@ -80,6 +80,21 @@ func c11(c *Ctx) {
 		}
 	}
 
+	// ---- the recorded journal mode (it selects the lock set of every internal writer) ----
+	{
+		var got []string
+		for _, in := range Instrs(c.F("litefs.(*DB).CommitJournal"), p.Writes("litefs.DB.mode")) {
+			got = append(got, fieldStoreVal(p, in))
+		}
+		c.ExpectAll("mode/journal-commit-origin", got, `phi\(0\|phi\(1\)\)|phi\(phi\(1\)\|0\)|phi\(0\|1\)|phi\(1\|0\)`, 1, "after a rollback-journal commit the recorded mode is rollback unless the committed page 1 says WAL - it never depends on the previous mode", "a journal commit is how a database leaves WAL mode: a mode that sticks to WAL makes every internal writer take the WAL lock set, which rollback-mode connections never contend on")
+		var ap []string
+		for _, in := range Instrs(c.F("litefs.(*DB).ApplyLTXNoLock"), p.Writes("litefs.DB.mode")) {
+			ap = append(ap, fieldStoreVal(p, in))
+		}
+		c.ExpectAll("mode/apply-origin", ap, pat("phi(0|phi(litefs.(*DB).Mode(p0)|phi(1)))")+"|"+pat("phi(0|phi(phi(1)|litefs.(*DB).Mode(p0)))"), 1, "after an apply the mode is rollback for a tombstone, WAL when the applied page 1 says so, otherwise unchanged", "")
+		c.OnlyIn("mode/writers", p.Writes("litefs.DB.mode"), []string{pat("litefs.NewDB"), pat("litefs.(*DB).initFromDatabaseHeader"), pat("litefs.(*DB).CommitJournal"), pat("litefs.(*DB).CommitWAL"), pat("litefs.(*DB).ApplyLTXNoLock"), pat("litefs.(*DB).Drop"), pat("litefs.(*DB).initDatabaseFile"), pat("litefs.(*DB).Open")}, 4, "DB.mode is written only by initialisation, the two commit paths, the apply and the drop", "")
+	}
+
 	// ---- nolock family ----
 	family := map[string]bool{
 		"litefs.(*DB).ApplyLTXNoLock": true, "litefs.(*DB).WriteLTXFileAt": true, "litefs.(*DB).CheckpointNoLock": true, "litefs.(*DB).recover": true,
